@@ -16,6 +16,8 @@ import fnmatch
 import importlib
 import hashlib
 import traceback
+import warnings
+warnings.filterwarnings('ignore')
 from collections import defaultdict
 
 HERE = os.path.dirname(os.path.dirname(os.path.abspath(__file__)))
